@@ -914,6 +914,14 @@ class Exec:
             o = self.ev(tgt.value, st)
             self.set_attr(o, tgt.attr, v, st, ast.unparse(tgt))
             return
+        if isinstance(tgt, ast.Subscript) and isinstance(tgt.slice, ast.Slice) and tgt.slice.lower is None and tgt.slice.upper is None \
+                and tgt.slice.step is None:
+            o = self.ev(tgt.value, st)
+            if S.strip_opt(o.ty).kind == 'list' and v.ty.kind == 'list':
+                # xs[:] = ys : replace the whole content in place
+                st.set_field('list', z3.Store(st.field('list'), S.addr(o.t), st.sel('list', S.addr(v.t))))
+                return
+            raise Unsupported('slice assignment ' + ast.unparse(tgt))
         if isinstance(tgt, ast.Subscript):
             o = self.ev(tgt.value, st)
             oty = S.strip_opt(o.ty)
@@ -1115,6 +1123,9 @@ class Exec:
         gk = '$global:' + ast.unparse(e)
         if gk in st.ghost:
             return st.ghost[gk]
+        cv = self.reg.const_values.get(ast.unparse(e))
+        if cv is not None and self._is_static_chain(e, st):
+            return cv(self, st)
         # module constants / enums first
         try:
             c = source.const_eval(self.mod, e) if self._is_static_chain(e, st) else None
@@ -1604,6 +1615,26 @@ class Exec:
         if others or len(vals) != 1 or vals[0].st is not st:
             raise Unsupported('call with several outcomes in expression position: ' + ast.unparse(e)[:80])
         return vals[0].val
+
+    def ev_ListComp(self, e, st):
+        """a list comprehension allocates a fresh list; its content is left unspecified, except that a pure filter
+        `[x for x in xs if ...]` only contains elements of xs (sound over-approximation; the element/condition expressions are not evaluated)"""
+        r = self.alloc(st, 'list')
+        out = S.fresh('listcomp', S.SeqP())
+        st.set_field('list', z3.Store(st.field('list'), S.addr(r), out))
+        self.notes.append(f'list comprehension {ast.unparse(e)[:50]} modelled with unspecified content')
+        if len(e.generators) == 1 and isinstance(e.elt, ast.Name) and isinstance(e.generators[0].target, ast.Name) \
+                and e.elt.id == e.generators[0].target.id:
+            try:
+                src = self.ev(e.generators[0].iter, st)
+                if src.ty.kind == 'list':
+                    x = z3.Const('lcx', S.PyObj())
+                    seq = st.sel('list', S.addr(src.t))
+                    st.assume(z3.ForAll([x], z3.Implies(S.member(out, x), S.member(seq, x)), patterns=[S.member(out, x)]))
+                    return V(r, src.ty)
+            except Unsupported:
+                pass
+        return V(r, S.List(S.Any))
 
     def ev_Lambda(self, e, st):
         return V(S.mk_fn(S.fresh('lambda', z3.IntSort())), S.Fn)
